@@ -179,6 +179,9 @@ static void mode_dft(int count)
     double Fp = uni(.5, .95), Fs = below(4)? uni(Fp + .05 > 1? Fp + .05 : 1, 1.5) : uni(Fp + .03, 1), att = uni(60, 180), mult = 1;
     double phase; unsigned mn = 8 + below(6), lg = below(3)? 13 + below(6) : 8 + below(5);   /* small `large`: where the padding loop acts */
     switch (below(6)) { case 0: case 1: phase = 50; break; case 2: phase = 0; break; case 3: phase = 100; break; case 4: phase = 25; break; default: phase = (double)below(401) / 4; }
+    if (below(6) == 0) {      /* short filter, large power-of-two L, small `large`: set_dft_length answers less than 32 L and the loop pads */
+      L = 64 << below(3); M = 1; Fn = L; Fp = uni(.5, .6); Fs = uni(1.4, 1.5); att = uni(60, 80); mn = 8; lg = 8 + below(3);
+    }
     if (L == 1 && M == 1) M = 2;
     lsx_design_lpf(Fp, Fs, -Fn, att, &nRaw, -1, -1.);       /* dummy run, modulo 1: the Kaiser estimate itself */
     if (nRaw > 20000) { --c; continue; }
